@@ -146,6 +146,17 @@ def run_alias(chk, prog, alias=None):
                                             line=inner.get("line"))
                     chk.count("SELF-PURE")
     shared_state(chk, prog, alias)
+    # no function writes in place into a module-level object (a default array, a table): the next call - of any instance - starts from the modified value
+    for f in sorted(prog.all_funcs(), key=lambda f: f.ref):
+        s = alias.summary(f)
+        for ph, recs in s.mut.items():
+            if ph[0] == "global":
+                for r in recs:
+                    inner = r["path"][-1] if r["path"] else r
+                    chk.finding("GLOBAL-WRITE", f.module.rel, f.qname, "%s: %s" % (ph[2], inner["stmt"]),
+                                "in-place write into the module-level object %s: the value every later call (and every other instance) starts from is changed, so repeating a call "
+                                "with the same arguments can give a different result" % ph[2], line=inner.get("line"))
+        chk.count("GLOBAL-WRITE")
     chk.counts["classes"] = n_cls
     chk.counts["calls_resolved"] = alias.resolved_calls
     chk.counts["calls_unresolved"] = alias.unresolved_calls
